@@ -348,6 +348,47 @@ class Decl:
         self.features = features
         self.extra_items = extra_items
 
+    def to_json(self):
+        return {"id": self.id, "inner": self.inner, "toks": self.toks, "env": self.env, "name": self.name,
+                "vis": self.vis, "generics": self.generics, "attrs": self.attrs, "kind": self.kind,
+                "fields": self.fields, "tags": sorted(self.tags), "extra_items": self.extra_items,
+                "inst": getattr(self, "inst", None), "inner_concrete": getattr(self, "inner_concrete", None),
+                "bounds": getattr(self, "bounds", None)}
+
+    @staticmethod
+    def from_json(j):
+        def tup(x):
+            if isinstance(x, list):
+                return [tup(y) for y in x]
+            return x
+
+        def tok(t):
+            t = list(t)
+            if t[0] == "g":
+                return ("g", [tok(u) for u in t[1]])
+            if t[0] == "x":
+                return ("x", ex(t[1]))
+            return tuple(t)
+
+        def ex(e):
+            e = list(e)
+            if e[0] in ("neg", "par"):
+                return (e[0], ex(e[1]))
+            if e[0] == "bin":
+                return ("bin", e[1], ex(e[2]), ex(e[3]))
+            return tuple(e)
+        d = Decl(j["id"], j["inner"], [tok(t) for t in j["toks"]], env=[tuple(e) for e in j["env"]],
+                 name=j["name"], vis=j["vis"], generics=[(g, list(b)) for g, b in j["generics"]],
+                 attrs=[tuple(a) for a in j["attrs"]], kind=j["kind"],
+                 fields=[tuple(f) for f in j["fields"]], tags=j["tags"], extra_items=j["extra_items"])
+        if j.get("inst"):
+            d.inst = j["inst"]
+        if j.get("inner_concrete"):
+            d.inner_concrete = j["inner_concrete"]
+        if j.get("bounds") is not None:
+            d.bounds = j["bounds"]
+        return d
+
     def family(self):
         if self.inner == "String":
             return "str"
